@@ -38,6 +38,9 @@ def cases(tier, seed):
         if pol['server_policy'] and (pol.get('dh_modulus_sizes') or any('group-exchange' in k for k in (pol.get('kex') or []))):
             # the same peer selecting its group-exchange moduli the way OpenSSH does (2048-bit fallback for requests nothing on file fits): the audit then goes through its OpenSSH follow-up probe and note
             cs.append({'kind': 'policy-audit', 'policy': name, 'gex_style': 'openssh'})
+        if pol['server_policy'] and any('-cert-' in k and not k.startswith('sk-') for k in (pol.get('optional_host_keys') or [])):
+            # the same peer also offering the certificate host keys the policy permits (with the key and CA sizes the policy lists)
+            cs.append({'kind': 'policy-audit', 'policy': name, 'optional': True})
     # the same, but as the second target of a run whose first target has weak keys, moduli and Terrapin exposure (tables must agree after scans too, not only after import)
     server_pols = [n for n, p_ in BUILTIN_POLICIES.items() if p_['server_policy']]
     for i, name in enumerate(server_pols):
@@ -197,11 +200,14 @@ def run_dheat(c):
     return viol, {'dheat_names_checked': n}
 
 
-def synth_script(pol, client, gex_style='strict'):
+def synth_script(pol, client, gex_style='strict', optional=False):
     """A peer configured exactly as the policy lists."""
     hk = {}
     sizes = pol.get('hostkey_sizes') or {}
-    for name in pol.get('host_keys') or []:
+    host_keys = list(pol.get('host_keys') or [])
+    if optional:
+        host_keys += [k for k in (pol.get('optional_host_keys') or []) if '-cert-' in k and not k.startswith('sk-') and k in sizes]
+    for name in host_keys:
         if name in sizes:
             sz = sizes[name]
             if sz.get('ca_key_type'):
@@ -222,7 +228,7 @@ def synth_script(pol, client, gex_style='strict'):
     elif any('group-exchange' in k for k in (pol.get('kex') or [])):
         gex = {'sizes': [4096], 'style': gex_style}
     script = {'banner': 'SSH-2.0-OpenSSH_9.9' if not client else 'SSH-2.0-OpenSSH_9.9',
-              'kex': audit.sym_kex(pol.get('kex') or [], pol.get('host_keys') or [], pol.get('ciphers') or [], pol.get('macs') or [], comp=pol.get('compressions') or ['none', 'zlib@openssh.com']),
+              'kex': audit.sym_kex(pol.get('kex') or [], host_keys, pol.get('ciphers') or [], pol.get('macs') or [], comp=pol.get('compressions') or ['none', 'zlib@openssh.com']),
               'hostkeys': hk, 'gex': gex}
     return script
 
@@ -231,7 +237,7 @@ def run_policy_audit(c):
     from ssh_audit.builtin_policies import BUILTIN_POLICIES
     pol = BUILTIN_POLICIES[c['policy']]
     client = not pol['server_policy']
-    script = synth_script(pol, client, c.get('gex_style', 'strict'))
+    script = synth_script(pol, client, c.get('gex_style', 'strict'), optional=bool(c.get('optional')))
     if client:
         r, p = audit.audit_client(script, ['-n'])
     else:
@@ -247,7 +253,7 @@ def run_policy_audit(c):
     unknown = [(cat, a.name) for cat in report.CATS for a in rep.algs[cat] if any('unknown algorithm' in t for _l, t in a.notes)]
     if unknown:
         viol.append(_v('C17/policy-peer-shows-unknown:' + unknown[0][1], 'a policy algorithm is reported as unknown by the audit', policy=c['policy'], unknown=unknown))
-    return viol, {'policy_audits': 1, 'policy_audits_openssh_moduli': 1 if c.get('gex_style') == 'openssh' else 0, 'policy_audit_algs': sum(len(rep.algs[cat]) for cat in report.CATS)}
+    return viol, {'policy_audits': 1, 'policy_audits_openssh_moduli': 1 if c.get('gex_style') == 'openssh' else 0, 'policy_audits_with_permitted_certificates': 1 if c.get('optional') else 0, 'policy_audit_algs': sum(len(rep.algs[cat]) for cat in report.CATS)}
 
 
 def run_after_weak(c):
